@@ -135,3 +135,47 @@ Proof.
   destruct (run cfg_resets init (firstn 86 empty_count_run)) as [s|] eqn:E; [|vm_compute in E; discriminate].
   exists s. split; [reflexivity|]. revert E. vm_compute. intros E; injection E; intros <-. cbn. eauto.
 Qed.
+
+
+(** ** 3. eight creation gaps in a row: why "no waiter gives up on an empty live file" is a
+    hypothesis of the mutual-exclusion theorem even for the repaired code
+
+    [cfg_resets] is the code with both fixes, on a healthy disk (eps = 0).  Eight processes
+    take and release the lock one after the other, 250 ms apart.  The waiter (thread 0)
+    happens to read the lock file each time between the O_EXCL create and the metadata
+    write of the current taker: eight consecutive empty reads, no successful read in
+    between, nobody killed, every heartbeat on time.  At the eighth it treats the file of
+    the live thread 8 as stale and removes it; thread 8 writes its (unlinked) file and
+    holds, the waiter creates a new file and holds too.  Each creation gap lasts
+    microseconds in practice, so this needs eight coincidences; the model's interleaving
+    semantics allows them. *)
+Definition gap_round (k : nat) : list label :=
+  [LTick (250000000); LStart k k; LTryCreate k; LWake 0%nat; LTryCreate 0%nat; LOpenRead 0%nat].
+Definition creation_gaps_run : list label :=
+  [LStart 1 1; LTryCreate 1; LStart 0 0; LTryCreate 0; LOpenRead 0; LWriteMeta 1; LUnlock 1]%nat ++
+  flat_map (fun k => gap_round k ++ [LWriteMeta k; LUnlock k]) [2; 3; 4; 5; 6; 7]%nat ++
+  gap_round 8%nat ++ [LRemove 0; LTryCreate 0; LWriteMeta 8; LTick 1; LWriteMeta 0]%nat.
+
+Definition is_kill (l : label) : bool := match l with LKill _ => true | _ => false end.
+
+Lemma creation_gaps_proj :
+  match run cfg_resets init creation_gaps_run with
+  | Some s => cs s 8%nat = CHolding 7%nat /\ cs s 0%nat = CHolding 8%nat /\ now s = 1750000001
+  | None => False
+  end.
+Proof. vm_compute. repeat split; reflexivity. Qed.
+
+Theorem mutex_refuted_creation_gaps :
+  exists s i1 i2, run cfg_resets init creation_gaps_run = Some s /\
+    (forall p, ~ In (LKill p) creation_gaps_run) /\
+    cs s 8%nat = CHolding i1 /\ cs s 0%nat = CHolding i2 /\ i1 <> i2 /\ now s < 2 * sec.
+Proof.
+  pose proof creation_gaps_proj as P.
+  destruct (run cfg_resets init creation_gaps_run) as [s|]; [|contradiction].
+  destruct P as (P1 & P2 & P3).
+  exists s, 7%nat, 8%nat. split; [reflexivity|]. split.
+  - intros p H.
+    assert (F : forallb (fun l => negb (is_kill l)) creation_gaps_run = true) by (vm_compute; reflexivity).
+    rewrite forallb_forall in F. specialize (F _ H). discriminate.
+  - rewrite P3. split; [exact P1|]. split; [exact P2|]. split; [discriminate | unfold sec; lia].
+Qed.
